@@ -2,7 +2,7 @@
    Only statements; every proof is `exact <lemma>`; examples by computation. *)
 From Coq Require Import List ZArith NArith QArith Qcanon Bool Arith String.
 From Dimod Require Import Base.Util Model.Poly Model.Comb Model.Ser Model.ChkC11
-  Proofs.CombPack Proofs.SerFacts.
+  Model.Coo Model.NdArr Proofs.CombPack Proofs.SerFacts Proofs.CoeffSound Proofs.SerVec Proofs.CooFacts Proofs.NdArrFacts.
 Import ListNotations.
 
 (* ================================================================== *)
@@ -128,6 +128,77 @@ Theorem C11_is_integer_spec :
   forall q, is_integer q = true <-> exists z, q = Q2Qc (inject_Z z).
 Proof. exact is_integer_spec. Qed.
 Print Assumptions C11_is_integer_spec.
+
+(* ================================================================== *)
+(* the vector form of a BQM (ldata / irow / icol / qdata / offset over index labels) *)
+
+Theorem C11_bqm_vectors_roundtrip :
+  forall n p s, labels_below n p -> no_selfloops p ->
+    energy (from_vectors (to_vectors n p)) s = energy p s.
+Proof. exact bqm_vectors_roundtrip. Qed.
+Print Assumptions C11_bqm_vectors_roundtrip.
+
+(* with the index maps: idx numbers the labels in the chosen (e.g. sorted) variable order and
+   lab reads the label list back; holds for every order *)
+Theorem C11_bqm_vectors_roundtrip_labelled :
+  forall n (idx lab : nat -> nat) p s,
+    (forall l, lab (idx l) = l) -> labels_below n (relabel idx p) -> no_selfloops p ->
+    energy (relabel lab (from_vectors (to_vectors n (relabel idx p)))) s = energy p s.
+Proof. exact bqm_vectors_roundtrip_labelled. Qed.
+Print Assumptions C11_bqm_vectors_roundtrip_labelled.
+
+Theorem C11_to_vectors_shape :
+  forall n p,
+    List.length (v_lin (to_vectors n p)) = n /\
+    Forall (fun t => (fst (fst t) < snd (fst t))%nat /\ (snd (fst t) < n)%nat) (v_quad (to_vectors n p)) /\
+    v_off (to_vectors n p) = p_off p.
+Proof. exact to_vectors_shape. Qed.
+Print Assumptions C11_to_vectors_shape.
+
+(* ================================================================== *)
+(* COO text, line level: vartype and every non-zero bias come back (the offset is not in the format) *)
+
+Theorem C11_coo_roundtrip_nonzero :
+  forall (header : bool) vt n p, labels_below n p -> no_selfloops p ->
+    exists q, coo_loads (if header then None else Some vt) (coo_dumps header vt n p) = Some (vt, q) /\
+              forall s, energy q s = (energy p s - p_off p)%Qc.
+Proof. exact coo_roundtrip_nonzero. Qed.
+Print Assumptions C11_coo_roundtrip_nonzero.
+
+Theorem C11_coo_loads_refusals :
+  forall t a h,
+    (coo_header t = None -> coo_loads None t = None) /\
+    (coo_header t = Some h -> vartype_eqb h a = false -> coo_loads (Some a) t = None).
+Proof. exact coo_loads_refusals. Qed.
+Print Assumptions C11_coo_loads_refusals.
+
+(* ================================================================== *)
+(* serialize_ndarray / deserialize_ndarray: shape bookkeeping, nested list or C-order bytes,
+   for any element type with a fixed-width byte codec *)
+
+Theorem C11_ndarray_roundtrip_1d :
+  forall (A B : Type) (width : nat) (encb : A -> list B) (decb : list B -> A),
+    (0 < width)%nat -> (forall x, List.length (encb x) = width) -> (forall x, decb (encb x) = x) ->
+    forall use_bytes xs, deserialize1 A B width decb (serialize1 A B encb use_bytes xs) = Some xs.
+Proof. exact ndarray_roundtrip_1d. Qed.
+Print Assumptions C11_ndarray_roundtrip_1d.
+
+Theorem C11_ndarray_roundtrip_2d :
+  forall (A B : Type) (width : nat) (encb : A -> list B) (decb : list B -> A),
+    (0 < width)%nat -> (forall x, List.length (encb x) = width) -> (forall x, decb (encb x) = x) ->
+    forall use_bytes r c rows,
+      (0 < c)%nat -> List.length rows = r -> Forall (fun row => List.length row = c) rows ->
+      deserialize2 A B width decb (serialize2 A B encb use_bytes r c rows) = Some rows.
+Proof. exact ndarray_roundtrip_2d. Qed.
+Print Assumptions C11_ndarray_roundtrip_2d.
+
+Theorem C11_flatten_reshape :
+  forall (A : Type) r c (flat : list A), (0 < c)%nat -> List.length flat = (r * c)%nat ->
+    flatten2 A (reshape2 A r c flat) = flat /\
+    List.length (reshape2 A r c flat) = r /\
+    Forall (fun row => List.length row = c) (reshape2 A r c flat).
+Proof. exact flatten_reshape. Qed.
+Print Assumptions C11_flatten_reshape.
 
 (* ================================================================== *)
 (* hypotheses are satisfiable on non-trivial data *)
